@@ -68,6 +68,10 @@ LeavesOf(fam) ==
                           Uni(<<Ref("Cp"), Ref("Sq")>>),
                           Uni(<<Obj(<<Prop("kind", LS("a-b"), FALSE), Prop("x", TNumber, FALSE)>>, <<>>),
                                 Obj(<<Prop("kind", LS("a_b"), FALSE), Prop("y", TString, FALSE)>>, <<>>)>>),
+                          \* three discriminator values that sanitize to one name part
+                          Uni(<<Obj(<<Prop("kind", LS("u-c"), FALSE), Prop("x", TNumber, FALSE)>>, <<>>),
+                                Obj(<<Prop("kind", LS("u_c"), FALSE), Prop("y", TString, FALSE)>>, <<>>),
+                                Obj(<<Prop("kind", LS("u.c"), FALSE), Prop("z", TNull, FALSE)>>, <<>>)>>),
                           \* two levels of tags: several variants share a value of the first discriminator
                           Uni(<<Obj(<<Prop("kind", LS("text"), FALSE), Prop("format", LS("plain"), FALSE), Prop("a", TString, FALSE)>>, <<>>),
                                 Obj(<<Prop("kind", LS("text"), FALSE), Prop("format", LS("html"), FALSE), Prop("b", TNumber, FALSE)>>, <<>>),
